@@ -10,12 +10,18 @@ theorems.  The loop of `cmd_run` itself is `Pipeline.upLoop` (what the driver ru
 `up_report_eq_runUp` prove it IS that composition for EVERY classifier, so the laws hold for the modelled command on
 `.rules`, legacy-CSV (`merchant_categories.csv`) and rule-less budgets alike; the section "Legacy CSV rule files" adds
 what is specific to the legacy classifier (which part of the world it reads; first match and tags end to end).
-PARTIAL: argparse, YAML loading, file lookup and printing are not modelled.
+The last section ("Settings resolution") starts at the SETTINGS OBJECT: `Config.resolveConfig` (load_config), `Config.planSources`
+(which parser calls cmd_run makes, with which arguments), `Config.readArgs` (what the reader makes of them) and the composition
+`PipelineCfg.upFromSettings`; defaults, rule mode, rules-file selection, error locality and setting locality are proved there.
+PARTIAL: argparse, the YAML parser itself (yaml.safe_load: the loaded object is the input), the two deprecated parsers
+(parse_amex / parse_boa: their rows are a parameter) and printing are not modelled.
 -/
 import TallyVerif.Props.C06
 import TallyVerif.Props.C01
 import TallyVerif.Props.C02
 import TallyVerif.Model.Pipeline
+import TallyVerif.Model.PipelineCfg
+import TallyVerif.Lemmas.Config
 
 namespace TallyVerif.Props.C11
 open TallyVerif TallyVerif.Totals TallyVerif.Props.C06
@@ -782,5 +788,966 @@ example : (∀ d, ∃ e, rd d .missing = .error e) ∧ rdSupp .orders = .error "
 example : flowOf (runUpIO asciiLower supp rdSupp rd [.bank, .orders, .missing, .card]) =
     flowOf (runUpIO asciiLower supp rdSupp rd [.bank, .card]) := by
   decide +kernel
+
+/-! ### Settings resolution: from the settings object to the report
+
+The section above takes each source's parse parameters as given.  Here they are DERIVED: `Config.resolveConfig` is
+`config_loader.load_config` on the object `yaml.safe_load` returned (any YAML value, Python's truthiness and dynamic typing
+kept, what Python raises an error value), `Config.planSources` is the list of parser calls `commands/run.cmd_run` makes, in
+order, with their arguments, `Config.readArgs` is what the reader makes of those arguments, and
+`PipelineCfg.upFromSettings` composes them with C05's tokeniser and row parser and the loop `Pipeline.upLoop` above.  All
+three are tied to the code on every run (streams `load`, `plan`, `read` of the check; the end-to-end stream runs the model
+FROM the settings object).  Theorems quantify over every `Fmt.Ext` (CPython's non-ASCII `lower` / `\w` / `isspace`), every
+`os.path.exists`, every outcome of the views loader, every file content and every `float()` / `strptime` / regex oracle. -/
+
+section settings
+open TallyVerif TallyVerif.Totals TallyVerif.Props.C06 TallyVerif.Config TallyVerif.PipelineCfg TallyVerif.Pipeline TallyVerif.Py TallyVerif.Gen
+
+/-! #### absent = documented default -/
+
+/-- **Defaults — `delimiter`.**  A source WITHOUT the key resolves exactly like the source with `delimiter: null` (comma):
+`FormatSpec.delimiter` is None in both cases, whatever else the entry says (also when it is rejected: same error). -/
+theorem default_delimiter (e : Fmt.Ext) (d : Dict) :
+    resolveSource e (.map (erase kDelimiter d)) = resolveSource e (.map (insert kDelimiter .null d)) :=
+  resolveSource_absent_delimiter e (erase kDelimiter d) (get_erase_self _ _)
+
+/-- **Defaults — `has_header`.**  Absent = `has_header: true`. -/
+theorem default_has_header (e : Fmt.Ext) (d : Dict) :
+    resolveSource e (.map (erase kHasHeader d)) = resolveSource e (.map (insert kHasHeader (.bool true) d)) :=
+  resolveSource_absent_has_header e (erase kHasHeader d) (get_erase_self _ _)
+
+/-- **Defaults — `decimal_separator`.**  Absent = `decimal_separator: "."` (the value `cmd_run` and the supplemental loader read
+with `source.get('decimal_separator', '.')`). -/
+theorem default_decimal_separator (e : Fmt.Ext) (d : Dict) :
+    resolveSource e (.map (erase kDecimalSeparator d)) = resolveSource e (.map (insert kDecimalSeparator (.str ['.']) d)) :=
+  resolveSource_absent_decimal_separator e (erase kDecimalSeparator d) (get_erase_self _ _)
+
+/-- **Defaults — `supplemental`.**  Absent = `supplemental: false`. -/
+theorem default_supplemental (e : Fmt.Ext) (d : Dict) :
+    resolveSource e (.map (erase kSupplemental d)) = resolveSource e (.map (insert kSupplemental (.bool false) d)) :=
+  resolveSource_absent_supplemental e (erase kSupplemental d) (get_erase_self _ _)
+
+private theorem formatFlag_erase_negate (e : Fmt.Ext) (d : Dict) : formatFlag e (erase kNegateAmount d) = formatFlag e d := by
+  have h1 : get kFormat (erase kNegateAmount d) = get kFormat d := by rw [get_erase]; simp (config := { decide := true })
+  have h2 : templateOf (erase kNegateAmount d) = templateOf d := by
+    unfold templateOf; rw [get_erase]; simp (config := { decide := true })
+  simp only [formatFlag, h1, h2]
+
+/-- **Defaults — `negate_amount`.**  Absent = the flag the source's OWN format string carries (`b` = does it say `{-amount}`):
+the key, when present, REPLACES that flag.  So the documented default `false` is the default exactly for formats without the
+minus sign; with `{-amount}`, `negate_amount: false` switches the negation off (`negate_amount_false_overrides_minus_sign`). -/
+theorem default_negate_amount (e : Fmt.Ext) (d : Dict) (b : Bool) (h : formatFlag e d = some b) :
+    resolveSource e (.map (erase kNegateAmount d)) = resolveSource e (.map (insert kNegateAmount (.bool b) d)) :=
+  resolveSource_absent_negate_amount e (erase kNegateAmount d) (.bool b) (get_erase_self _ _)
+    (Or.inr ⟨b, by rw [formatFlag_erase_negate, h], rfl⟩)
+
+/-- …and on an entry without a (valid) `format` — a `type: amex|boa` source, a rejected entry — `negate_amount` is not read at all -/
+theorem negate_amount_without_format (e : Fmt.Ext) (d : Dict) (v : Y) (h : formatFlag e d = none) :
+    resolveSource e (.map (erase kNegateAmount d)) = resolveSource e (.map (insert kNegateAmount v d)) :=
+  resolveSource_absent_negate_amount e (erase kNegateAmount d) v (get_erase_self _ _)
+    (Or.inl (by rw [formatFlag_erase_negate, h]))
+
+/-! #### rule mode -/
+
+private theorem top_get_erase_insert (k : Str) (v : Y) (c : Dict) (k' : Str) (hk : k' ≠ k) :
+    get k' (erase k c) = get k' (insert k v c) := by
+  rw [get_erase, get_insert]; simp [hk]
+
+/-- **Defaults — `rule_mode`.**  A settings object without the key loads exactly like the one with `rule_mode: first_match`
+(same sources, same files, same warnings, same error if any). -/
+theorem default_rule_mode (env : Env) (c : Dict) :
+    resolveConfig env (.map (erase kRuleMode c)) = resolveConfig env (.map (insert kRuleMode (.str sFirstMatch) c)) := by
+  rw [resolveConfig_eq_assemble, resolveConfig_eq_assemble]
+  have hm : resolveRuleMode (erase kRuleMode c) = resolveRuleMode (insert kRuleMode (.str sFirstMatch) c) := by
+    simp (config := { decide := true }) [resolveRuleMode, get_erase, get_insert]
+  rw [hm, top_get_erase_insert kRuleMode _ c kDataSources (by decide),
+    resolveRulesFile_congr env _ _ (top_get_erase_insert kRuleMode (.str sFirstMatch) c kMerchantsFile (by decide)),
+    resolveViewsFile_congr env _ _ (top_get_erase_insert kRuleMode (.str sFirstMatch) c kViewsFile (by decide)),
+    removedWarnings_congr _ _ (fun k hk => top_get_erase_insert kRuleMode (.str sFirstMatch) c k (by
+      intro e; subst e; revert hk; decide)),
+    top_get_erase_insert kRuleMode _ c kDescriptionCleaning (by decide)]
+
+/-- what a configuration says apart from the rule mode and the warnings -/
+def apartFromMode (cfg : Config) : List SourceCfg × RulesFile × Option Str × Y :=
+  (cfg.sources, cfg.rulesFile, cfg.viewsFile, cfg.descriptionCleaning)
+
+/-- **Rule mode — never an error.**  Whatever `rule_mode` is set to (any YAML value: a number, a list, null, a misspelling),
+loading succeeds or fails exactly as it does without the key, with the same sources, rules file, views file — and the same
+error.  The key can only move the mode and the warnings. -/
+theorem rule_mode_never_an_error (env : Env) (c : Dict) (v : Y) :
+    (resolveConfig env (.map (insert kRuleMode v c))).map apartFromMode =
+      (resolveConfig env (.map (erase kRuleMode c))).map apartFromMode := by
+  rw [resolveConfig_eq_assemble, resolveConfig_eq_assemble]
+  rw [← top_get_erase_insert kRuleMode v c kDataSources (by decide),
+    ← resolveRulesFile_congr env _ _ (top_get_erase_insert kRuleMode v c kMerchantsFile (by decide)),
+    ← resolveViewsFile_congr env _ _ (top_get_erase_insert kRuleMode v c kViewsFile (by decide)),
+    ← top_get_erase_insert kRuleMode v c kDescriptionCleaning (by decide)]
+  simp only [assemble]
+  cases resolveSources env.ext (get kDataSources (erase kRuleMode c)) with
+  | error err => rfl
+  | ok ss =>
+    cases resolveRulesFile env (erase kRuleMode c) with
+    | error err => rfl
+    | ok p =>
+      cases resolveViewsFile env (erase kRuleMode c) with
+      | error err => rfl
+      | ok p2 => rfl
+
+private theorem rulesFile_warnings (env : Env) (c : Dict) (rf : RulesFile) (wr : List Warning)
+    (h : resolveRulesFile env c = .ok (rf, wr)) : wr = [] ∨ wr = [.merchantsNotFound] := by
+  unfold resolveRulesFile at h
+  simp only at h
+  split at h
+  · split at h
+    · split at h <;> cases h <;> simp
+    · cases h
+  · split at h <;> cases h <;> simp
+
+private theorem viewsFile_warnings (env : Env) (c : Dict) (vf : Option Str) (wv : List Warning)
+    (h : resolveViewsFile env c = .ok (vf, wv)) : wv = [] ∨ wv = [.viewsError] ∨ wv = [.viewsNotFound] := by
+  unfold resolveViewsFile at h
+  simp only at h
+  split at h
+  · split at h
+    · split at h
+      · split at h <;> first | (cases h; simp) | cases h
+      · cases h; simp
+    · cases h
+  · cases h; simp
+
+private theorem not_mem_parserWarnings (ss : List SourceCfg) : Warning.invalidRuleMode ∉ parserWarnings ss := by
+  intro h
+  simp only [parserWarnings, List.mem_filterMap] at h
+  obtain ⟨s, _, hs⟩ := h
+  split at hs <;> cases hs
+
+private theorem not_mem_removedWarnings (c : Dict) : Warning.invalidRuleMode ∉ removedWarnings c := by
+  unfold removedWarnings
+  split <;> simp
+
+/-- **Rule mode — only the two legal spellings select a mode.**  `most_specific` is in force iff the value is exactly the
+string `most_specific` (not `Most_Specific`, not `most-specific`, not `[most_specific]`); the "invalid rule_mode" warning is
+there iff the key is present with a value that is neither of the two strings; in every other case the mode is `first_match`
+(`RuleMode` has two values). -/
+theorem rule_mode_spec (env : Env) (c : Dict) (cfg : Config) (h : resolveConfig env (.map c) = .ok cfg) :
+    (cfg.ruleMode = .mostSpecific ↔ get kRuleMode c = some (.str sMostSpecific)) ∧
+    (Warning.invalidRuleMode ∈ cfg.warnings ↔
+      ∃ v, get kRuleMode c = some v ∧ v ≠ .str sFirstMatch ∧ v ≠ .str sMostSpecific) := by
+  obtain ⟨ss, rf, wr, vf, wv, _, hrf, hvf, rfl⟩ := resolveConfig_ok env c cfg h
+  have hwr := rulesFile_warnings env c rf wr hrf
+  have hwv := viewsFile_warnings env c vf wv hvf
+  have hmem : Warning.invalidRuleMode ∈ parserWarnings ss ++ removedWarnings c ++ (resolveRuleMode c).2 ++ wr ++ wv ↔
+      Warning.invalidRuleMode ∈ (resolveRuleMode c).2 := by
+    have h1 := not_mem_parserWarnings ss
+    have h2 := not_mem_removedWarnings c
+    rcases hwr with rfl | rfl <;> rcases hwv with rfl | rfl | rfl <;> simp [h1, h2]
+  simp only [hmem]
+  unfold resolveRuleMode
+  cases hg : get kRuleMode c with
+  | none => simp
+  | some v =>
+    cases v with
+    | str s =>
+      by_cases h1 : s = sMostSpecific
+      · subst h1; simp (config := { decide := true })
+      · by_cases h2 : s = sFirstMatch
+        · subst h2; simp (config := { decide := true })
+        · simp [h1, h2]
+    | _ => simp
+
+/-! #### which rules file -/
+
+/-- the path `merchants_file: s` names, and the legacy file -/
+def configuredRulesPath (env : Env) (s : Str) : Str := pjoin2 (dirname env.cfgDir) s
+def legacyRulesPath (env : Env) : Str := pjoin2 env.cfgDir ConfigTables.LEGACY_CSV_NAME
+
+private theorem truthy_str (s : Str) : (Y.str s).truthy = true ↔ s ≠ [] := by
+  cases s <;> simp [Y.truthy]
+
+/-- **Which rules file — the three-way choice, exactly.**  `merchants_file` names an existing file (relative to the budget
+directory) ⇔ that file, format `new`; `merchants_file` is absent OR FALSY (`""`, null, false, 0, [] — `if merchants_file:`) and
+`config/merchant_categories.csv` exists ⇔ the legacy CSV, format `csv`; otherwise — configured & missing, or nothing configured
+and no legacy file — no rules at all. -/
+theorem rules_file_selection (env : Env) (c : Dict) (cfg : Config) (h : resolveConfig env (.map c) = .ok cfg) :
+    (∀ p, cfg.rulesFile = .new p ↔
+      ∃ s, get kMerchantsFile c = some (.str s) ∧ s ≠ [] ∧ p = configuredRulesPath env s ∧ env.pathExists p = true) ∧
+    (∀ p, cfg.rulesFile = .csv p ↔
+      ((get kMerchantsFile c).getD .null).truthy = false ∧ p = legacyRulesPath env ∧ env.pathExists p = true) ∧
+    (cfg.rulesFile = .none ↔
+      (∃ s, get kMerchantsFile c = some (.str s) ∧ s ≠ [] ∧ env.pathExists (configuredRulesPath env s) = false) ∨
+      (((get kMerchantsFile c).getD .null).truthy = false ∧ env.pathExists (legacyRulesPath env) = false)) := by
+  obtain ⟨ss, rf, wr, vf, wv, _, hrf, _, rfl⟩ := resolveConfig_ok env c cfg h
+  simp only
+  unfold resolveRulesFile at hrf
+  simp only at hrf
+  unfold configuredRulesPath legacyRulesPath
+  generalize hv : (get kMerchantsFile c).getD .null = v at hrf ⊢
+  have hget : ∀ s, get kMerchantsFile c = some (.str s) → v = .str s := by
+    intro s e; rw [e] at hv; exact hv.symm
+  have hget' : ∀ s, s ≠ [] → v = .str s → get kMerchantsFile c = some (.str s) := by
+    intro s hs e
+    cases hg : get kMerchantsFile c with
+    | none => rw [hg] at hv; simp at hv; rw [← hv] at e; cases e
+    | some w => rw [hg] at hv; simp at hv; rw [hv, e]
+  split at hrf
+  · rename_i ht
+    split at hrf
+    · rename_i s
+      have hs : s ≠ [] := (truthy_str s).mp ht
+      have hg := hget' s hs rfl
+      split at hrf
+      · rename_i hex
+        cases hrf
+        refine ⟨fun p => ⟨fun e => ?_, fun ⟨s', e1, _, e3, _⟩ => ?_⟩, fun p => ⟨(fun e => by cases e), fun ⟨e1, _⟩ => ?_⟩,
+          ⟨(fun e => by cases e), fun e => ?_⟩⟩
+        · cases e; exact ⟨s, hg, hs, rfl, hex⟩
+        · rw [hg] at e1; cases e1; rw [e3]
+        · rw [ht] at e1; cases e1
+        · rcases e with ⟨s', e1, _, e3⟩ | ⟨e1, _⟩
+          · rw [hg] at e1; cases e1; rw [hex] at e3; cases e3
+          · rw [ht] at e1; cases e1
+      · rename_i hex
+        cases hrf
+        refine ⟨fun p => ⟨(fun e => by cases e), fun ⟨s', e1, _, e3, e4⟩ => ?_⟩, fun p => ⟨(fun e => by cases e), fun ⟨e1, _⟩ => ?_⟩,
+          ⟨fun _ => Or.inl ⟨s, hg, hs, (by simpa using hex)⟩, fun _ => rfl⟩⟩
+        · rw [hg] at e1; cases e1; rw [e3] at e4; exact absurd e4 hex
+        · rw [ht] at e1; cases e1
+    · cases hrf
+  · rename_i ht
+    have htf : v.truthy = false := by simpa using ht
+    have hno : ∀ s, get kMerchantsFile c = some (.str s) → s ≠ [] → False := by
+      intro s e hs
+      have := hget s e
+      rw [this] at htf
+      exact absurd ((truthy_str s).mpr hs) (by simp [htf])
+    split at hrf
+    · rename_i hex
+      cases hrf
+      refine ⟨fun p => ⟨(fun e => by cases e), fun ⟨s', e1, e2, _⟩ => (hno s' e1 e2).elim⟩,
+        fun p => ⟨fun e => ?_, fun ⟨_, e2, _⟩ => (by rw [e2])⟩, ⟨(fun e => by cases e), fun e => ?_⟩⟩
+      · cases e; exact ⟨htf, rfl, hex⟩
+      · rcases e with ⟨s', e1, e2, _⟩ | ⟨_, e2⟩
+        · exact (hno s' e1 e2).elim
+        · rw [hex] at e2; cases e2
+    · rename_i hex
+      cases hrf
+      refine ⟨fun p => ⟨(fun e => by cases e), fun ⟨s', e1, e2, _⟩ => (hno s' e1 e2).elim⟩,
+        fun p => ⟨(fun e => by cases e), fun ⟨_, e2, e3⟩ => ?_⟩, ⟨fun _ => Or.inr ⟨htf, (by simpa using hex)⟩, fun _ => rfl⟩⟩
+      rw [e2] at e3; exact absurd e3 hex
+
+/-- **A configured-but-missing `merchants_file` never silently falls back to the legacy CSV**: no rules are loaded (everything
+is `Unknown`) and the "Merchants file not found" warning is recorded — whether or not `config/merchant_categories.csv` exists. -/
+theorem configured_missing_never_legacy (env : Env) (c : Dict) (cfg : Config) (s : Str)
+    (h : resolveConfig env (.map c) = .ok cfg) (hmf : get kMerchantsFile c = some (.str s)) (hs : s ≠ [])
+    (hmiss : env.pathExists (configuredRulesPath env s) = false) :
+    cfg.rulesFile = .none ∧ Warning.merchantsNotFound ∈ cfg.warnings := by
+  refine ⟨((rules_file_selection env c cfg h).2.2).mpr (Or.inl ⟨s, hmf, hs, hmiss⟩), ?_⟩
+  obtain ⟨ss, rf, wr, vf, wv, _, hrf, _, rfl⟩ := resolveConfig_ok env c cfg h
+  have : wr = [.merchantsNotFound] := by
+    unfold resolveRulesFile at hrf
+    unfold configuredRulesPath at hmiss
+    simp only [hmf, Option.getD_some, (truthy_str s).mpr hs, if_true, hmiss, Bool.false_eq_true, if_false, Except.ok.injEq,
+      Prod.mk.injEq] at hrf
+    exact hrf.2.symm
+  simp [this]
+
+/-- …whereas a FALSY `merchants_file` (`merchants_file: ""`, `merchants_file:` with nothing after it) IS the same as no key at
+all — including the fall-back to the legacy CSV. -/
+theorem falsy_merchants_file_is_absent (env : Env) (c : Dict) (v : Y) (hv : v.truthy = false) :
+    resolveConfig env (.map (insert kMerchantsFile v c)) = resolveConfig env (.map (erase kMerchantsFile c)) := by
+  rw [resolveConfig_eq_assemble, resolveConfig_eq_assemble]
+  have hr : resolveRulesFile env (insert kMerchantsFile v c) = resolveRulesFile env (erase kMerchantsFile c) := by
+    have hn : Y.null.truthy = false := rfl
+    simp [resolveRulesFile, get_insert, get_erase, hv, hn]
+  rw [hr, ← top_get_erase_insert kMerchantsFile v c kDataSources (by decide),
+    ← resolveRuleMode_congr _ _ (top_get_erase_insert kMerchantsFile v c kRuleMode (by decide)),
+    ← resolveViewsFile_congr env _ _ (top_get_erase_insert kMerchantsFile v c kViewsFile (by decide)),
+    ← removedWarnings_congr _ _ (fun k hk => top_get_erase_insert kMerchantsFile v c k (by
+      intro e; subst e; revert hk; decide)),
+    ← top_get_erase_insert kMerchantsFile v c kDescriptionCleaning (by decide)]
+
+/-! #### which entries abort the load -/
+
+/-- `parse_format_string` accepts the format with this `columns.description` value -/
+def FormatOk (e : Fmt.Ext) (f : Str) (tmpl : Y) : Bool :=
+  match tmpl with
+  | .str t => (Fmt.Impl.parseFormat e f (some t)).isOk
+  | _ => !tmpl.truthy && (Fmt.Impl.parseFormat e f none).isOk
+
+/-- **the source entries `load_config` accepts**: a mapping without a removed key that has EITHER a `format` that is a string
+`parse_format_string` accepts together with `columns.description` (a string, or any falsy value) OR, failing a `format` key, a
+`type` that is a string naming a special parser in any letter case.  Nothing else is looked at: `name`, `file`, `delimiter`,
+`has_header`, `negate_amount`, `decimal_separator`, `supplemental` may be absent or of any type. -/
+def SourceOk (e : Fmt.Ext) : Y → Bool
+  | .map d =>
+    !(ConfigTables.REMOVED_SOURCE_KEYS.any fun k => has k d) &&
+    (match get kFormat d with
+     | some (.str f) => FormatOk e f (templateOf d)
+     | some _ => false
+     | none =>
+       match get kType d with
+       | some (.str t) => ConfigTables.SPECIAL_PARSERS.contains (e.lower (e.lower t))
+       | _ => false)
+  | _ => false
+
+private theorem find_none_iff_any {α : Type} (l : List α) (p : α → Bool) : (l.find? p).isNone = !l.any p := by
+  induction l with
+  | nil => rfl
+  | cons a l ih =>
+    simp only [List.find?_cons, List.any_cons]
+    cases p a <;> simp [ih]
+
+private theorem parseFormatY_isOk (e : Fmt.Ext) (f : Str) (tmpl : Y) : (parseFormatY e (.str f) tmpl).isOk = FormatOk e f tmpl := by
+  unfold parseFormatY FormatOk
+  simp only
+  split
+  · rename_i t; simp only; cases Fmt.Impl.parseFormat e f (some t) <;> rfl
+  · by_cases ht : tmpl.truthy = true
+    · simp only [ht, if_true, Bool.not_true, Bool.false_and]
+      cases Fmt.Impl.parseFormat e f (some ['x']) with
+      | error err => simp only; split <;> rfl
+      | ok _ => rfl
+    · have : tmpl.truthy = false := by simpa using ht
+      simp only [this, Bool.false_eq_true, if_false, Bool.not_false, Bool.true_and]
+      cases Fmt.Impl.parseFormat e f none <;> rfl
+
+private theorem isOk_map {ε α β : Type} (f : α → β) (x : Except ε α) : (x.map f).isOk = x.isOk := by
+  cases x <;> rfl
+
+/-- **Error locality — which source entries `resolve_source_format` rejects**: exactly those outside `SourceOk`. -/
+theorem source_ok_iff (e : Fmt.Ext) (y : Y) : (resolveSource e y).isOk = SourceOk e y := by
+  cases y with
+  | map d =>
+    unfold resolveSource SourceOk
+    have hf := find_none_iff_any ConfigTables.REMOVED_SOURCE_KEYS (fun k => has k d)
+    cases hfind : ConfigTables.REMOVED_SOURCE_KEYS.find? (fun k => has k d) with
+    | some k =>
+      rw [hfind] at hf
+      have : (ConfigTables.REMOVED_SOURCE_KEYS.any fun k => has k d) = true := by simpa using hf
+      simp only [this, Bool.not_true, Bool.false_and, hfind]
+      rfl
+    | none =>
+      rw [hfind] at hf
+      have : (ConfigTables.REMOVED_SOURCE_KEYS.any fun k => has k d) = false := by simpa using hf
+      simp only [this, Bool.not_false, Bool.true_and, hfind]
+      cases hfmt : get kFormat d with
+      | some fmt =>
+        simp only [isOk_map]
+        cases fmt with
+        | str f => simp only [resolveGeneric, isOk_map, parseFormatY_isOk]
+        | _ => simp only [resolveGeneric, isOk_map, parseFormatY]; rfl
+      | none =>
+        simp only
+        cases htype : get kType d with
+        | none => rfl
+        | some t =>
+          simp only [isOk_map]
+          cases t with
+          | str t =>
+            simp only [resolveSpecial]
+            split <;> simp_all [Except.isOk, Except.toBool]
+          | _ => simp only [resolveSpecial]; rfl
+  | _ => simp only [resolveSource, SourceOk]; rfl
+
+/-- `data_sources` is absent, falsy (null, [], {}, '', 0, false), or a list of acceptable entries -/
+def SourcesOk (e : Fmt.Ext) : Option Y → Bool
+  | none => true
+  | some v => !v.truthy || (match v with
+      | .list xs => xs.all (SourceOk e)
+      | _ => false)
+
+/-- `merchants_file` / `views_file` is absent, falsy, or a string -/
+def PathOk : Option Y → Bool
+  | none => true
+  | some v => !v.truthy || (match v with
+      | .str _ => true
+      | _ => false)
+
+/-- a views file that is there can be read (it may fail to PARSE: that is a warning) -/
+def ViewsReadable (env : Env) (c : Dict) : Bool :=
+  match get kViewsFile c with
+  | some (.str s) =>
+    s.isEmpty || !env.pathExists (configuredRulesPath env s) ||
+      (match env.viewsLoad (configuredRulesPath env s) with
+       | .raises _ => false
+       | _ => true)
+  | _ => true
+
+/-- **the settings objects `load_config` accepts** -/
+def LoadOk (env : Env) : Y → Bool
+  | .map c => SourcesOk env.ext (get kDataSources c) && PathOk (get kMerchantsFile c) && PathOk (get kViewsFile c) && ViewsReadable env c
+  | _ => false
+
+private theorem resolveSources_isOk (e : Fmt.Ext) (ds : Option Y) : (resolveSources e ds).isOk = SourcesOk e ds := by
+  unfold resolveSources SourcesOk
+  cases ds with
+  | none => rfl
+  | some v =>
+    simp only
+    by_cases ht : v.truthy = true
+    · simp only [ht, Bool.not_true, Bool.false_eq_true, if_false, Bool.false_or]
+      cases v with
+      | list xs =>
+        simp only [resolveAll_ok_iff]
+        congr 1
+        funext x
+        exact source_ok_iff e x
+      | _ => rfl
+    · have : v.truthy = false := by simpa using ht
+      simp only [this, Bool.not_false, if_true, Bool.true_or]
+      rfl
+
+private theorem resolveRulesFile_isOk (env : Env) (c : Dict) : (resolveRulesFile env c).isOk = PathOk (get kMerchantsFile c) := by
+  unfold resolveRulesFile PathOk
+  cases hg : get kMerchantsFile c with
+  | none =>
+    have : Y.null.truthy = false := rfl
+    simp only [Option.getD_none, this, Bool.false_eq_true, if_false]
+    split <;> rfl
+  | some v =>
+    simp only [Option.getD_some]
+    by_cases ht : v.truthy = true
+    · simp only [ht, if_true, Bool.not_true, Bool.false_or]
+      cases v with
+      | str s => simp only; split <;> rfl
+      | _ => rfl
+    · have : v.truthy = false := by simpa using ht
+      simp only [this, Bool.false_eq_true, if_false, Bool.not_false, Bool.true_or]
+      split <;> rfl
+
+private theorem resolveViewsFile_isOk (env : Env) (c : Dict) :
+    (resolveViewsFile env c).isOk = (PathOk (get kViewsFile c) && ViewsReadable env c) := by
+  unfold resolveViewsFile PathOk ViewsReadable configuredRulesPath
+  cases hg : get kViewsFile c with
+  | none => rfl
+  | some v =>
+    simp only [Option.getD_some]
+    by_cases ht : v.truthy = true
+    · simp only [ht, if_true, Bool.not_true, Bool.false_or]
+      cases v with
+      | str s =>
+        have hs : s.isEmpty = false := by
+          cases s with
+          | nil => simp [Y.truthy] at ht
+          | cons a r => rfl
+        simp only [hs, Bool.false_or, Bool.true_and]
+        by_cases hex : env.pathExists (pjoin2 (dirname env.cfgDir) s) = true
+        · simp only [hex, if_true, Bool.not_true, Bool.false_or]
+          cases env.viewsLoad (pjoin2 (dirname env.cfgDir) s) <;> rfl
+        · have : env.pathExists (pjoin2 (dirname env.cfgDir) s) = false := by simpa using hex
+          simp only [this, Bool.false_eq_true, if_false, Bool.not_false, Bool.true_or]
+          rfl
+      | _ => rfl
+    · have : v.truthy = false := by simpa using ht
+      simp only [this, Bool.false_eq_true, if_false, Bool.not_false, Bool.true_or, Bool.true_and]
+      cases v with
+      | str s =>
+        have hs : s.isEmpty = true := by
+          cases s with
+          | nil => rfl
+          | cons a r => simp [Y.truthy] at this
+        simp only [hs, Bool.true_or]
+        rfl
+      | _ => rfl
+
+/-- **Error locality — which settings objects `load_config` rejects**: exactly those outside `LoadOk` (the settings must be a
+mapping; `data_sources` falsy or a list of acceptable entries; `merchants_file` / `views_file` falsy or strings; a views file
+that is there must be readable).  Everything else — `rule_mode`, `year`, unknown keys, removed settings, a views file that does
+not parse, missing files — is tolerated (at most a warning). -/
+theorem load_ok_iff (env : Env) (y : Y) : (resolveConfig env y).isOk = LoadOk env y := by
+  cases y with
+  | map c =>
+    rw [resolveConfig_isOk, resolveSources_isOk, resolveRulesFile_isOk, resolveViewsFile_isOk]
+    simp only [LoadOk, Bool.and_assoc]
+  | _ => rfl
+
+/-- **One malformed source entry aborts the whole load**: no partial configuration, no other source is read. -/
+theorem bad_source_aborts_load (env : Env) (c : Dict) (xs : List Y) (x : Y) (hds : get kDataSources c = some (.list xs)) (hx : x ∈ xs)
+    (hbad : SourceOk env.ext x = false) : ∃ err, resolveConfig env (.map c) = .error err := by
+  have : (resolveConfig env (.map c)).isOk = false := by
+    rw [load_ok_iff]
+    have hall : xs.all (SourceOk env.ext) = false := by
+      rw [List.all_eq_false]
+      exact ⟨x, hx, by simp [hbad]⟩
+    have htr : (Y.list xs).truthy = true := by
+      cases xs with
+      | nil => cases hx
+      | cons a r => rfl
+    simp [LoadOk, SourcesOk, hds, hall, htr]
+  cases h : resolveConfig env (.map c) with
+  | error err => exact ⟨err, rfl⟩
+  | ok cfg => rw [h] at this; cases this
+
+/-- the keys that decide whether an entry is accepted -/
+def acceptanceKeys : List Str := ConfigTables.REMOVED_SOURCE_KEYS ++ [kFormat, kType, kColumns]
+
+/-- …and acceptance looks at `format`, `type`, `columns` and the two removed keys ONLY: any other key of an entry — `name`,
+`file`, `delimiter`, `has_header`, `negate_amount`, `decimal_separator`, `supplemental`, an unknown key — may be absent or carry
+a value of any type without the load failing. -/
+theorem source_ok_ignores_other_keys (e : Fmt.Ext) (d : Dict) (k : Str) (v : Y) (hk : k ∉ acceptanceKeys) :
+    SourceOk e (.map (insert k v d)) = SourceOk e (.map (erase k d)) := by
+  have hg : ∀ k', k' ∈ acceptanceKeys → get k' (insert k v d) = get k' (erase k d) := by
+    intro k' hk'
+    have : ¬ k' = k := fun e => hk (e ▸ hk')
+    rw [get_insert, get_erase]; simp [this]
+  have h1 := hg ['a', 'c', 'c', 'o', 'u', 'n', 't', '_', 't', 'y', 'p', 'e'] (by decide)
+  have h2 := hg ['s', 'k', 'i', 'p', '_', 'n', 'e', 'g', 'a', 't', 'i', 'v', 'e'] (by decide)
+  have h3 := hg kFormat (by decide)
+  have h4 := hg kType (by decide)
+  have h5 := hg kColumns (by decide)
+  simp only [SourceOk, templateOf, ConfigTables.REMOVED_SOURCE_KEYS, List.any_cons, List.any_nil, has, h1, h2, h3, h4, h5]
+
+/-! #### locality at the settings level -/
+
+private theorem sources_of_list (env : Env) (c : Dict) (xs : List Y) (cfg : Config) (hds : get kDataSources c = some (.list xs))
+    (h : resolveConfig env (.map c) = .ok cfg) : resolveAll env.ext xs = .ok cfg.sources := by
+  obtain ⟨ss, rf, wr, vf, wv, hss, _, _, rfl⟩ := resolveConfig_ok env c cfg h
+  simp only [hds, resolveSources] at hss
+  cases xs with
+  | nil => simp [Y.truthy] at hss; simp [resolveAll, hss]
+  | cons x r => simpa [Y.truthy] using hss
+
+private theorem planSources_ok (q : Bool) (env : Env) (cfg : Config) (P : List Planned) (h : planSources q env cfg = .ok P) :
+    planFrom q env 0 cfg.sources = .ok P := by
+  unfold planSources at h
+  split at h
+  · cases h
+  · split at h
+    · cases h
+    · split at h
+      · cases h
+      · exact h
+
+/-- **Editing one source entry moves only that source's planned call.**  Two settings objects whose `data_sources` lists
+differ in ONE entry (position `pre.length`; everything else — also any other top-level key — may differ too): when both
+runs get as far as the loop, the calls planned before that position are literally the same list, so are the calls after it,
+and what stands between is the at most one call of the edited source. -/
+theorem plan_source_local (q : Bool) (env : Env) (c c' : Dict) (pre post : List Y) (x x' : Y) (cfg cfg' : Config)
+    (P P' : List Planned)
+    (hc : get kDataSources c = some (.list (pre ++ x :: post))) (hc' : get kDataSources c' = some (.list (pre ++ x' :: post)))
+    (h : resolveConfig env (.map c) = .ok cfg) (h' : resolveConfig env (.map c') = .ok cfg')
+    (hP : planSources q env cfg = .ok P) (hP' : planSources q env cfg' = .ok P') :
+    ∃ before here here' after,
+      P = before ++ here ++ after ∧ P' = before ++ here' ++ after ∧ here.length ≤ 1 ∧ here'.length ≤ 1 ∧
+      (∀ p ∈ here ++ here', p.index = pre.length) ∧ (∀ p ∈ before ++ after, p.index ≠ pre.length) := by
+  obtain ⟨A, R, hA, hR, hS⟩ := resolveAll_append env.ext pre (x :: post) cfg.sources (sources_of_list env c _ cfg hc h)
+  obtain ⟨s, B, _, hB, rfl⟩ := resolveAll_cons env.ext x post R hR
+  obtain ⟨A', R', hA', hR', hS'⟩ := resolveAll_append env.ext pre (x' :: post) cfg'.sources (sources_of_list env c' _ cfg' hc' h')
+  obtain ⟨s', B', _, hB', rfl⟩ := resolveAll_cons env.ext x' post R' hR'
+  have eA : A' = A := by rw [hA] at hA'; cases hA'; rfl
+  have eB : B' = B := by rw [hB] at hB'; cases hB'; rfl
+  subst eA eB
+  have hlen : A'.length = pre.length := resolveAll_length env.ext pre A' hA
+  have hp := planSources_ok q env cfg P hP
+  have hp' := planSources_ok q env cfg' P' hP'
+  rw [hS] at hp
+  rw [hS'] at hp'
+  obtain ⟨PA, PR, hPA, hPR, rfl⟩ := planFrom_append q env 0 A' (s :: B') P hp
+  obtain ⟨here, PB, _, hPB, rfl⟩ := planFrom_cons q env (0 + A'.length) s B' PR hPR
+  obtain ⟨PA', PR', hPA', hPR', rfl⟩ := planFrom_append q env 0 A' (s' :: B') P' hp'
+  obtain ⟨here', PB', _, hPB', rfl⟩ := planFrom_cons q env (0 + A'.length) s' B' PR' hPR'
+  have e1 : PA' = PA := by rw [hPA] at hPA'; cases hPA'; rfl
+  have e2 : PB' = PB := by rw [hPB] at hPB'; cases hPB'; rfl
+  subst e1 e2
+  have iA := planFrom_index q env 0 A' PA' hPA
+  have iB := planFrom_index q env (0 + A'.length + 1) B' PB' hPB
+  refine ⟨PA', here.toList, here'.toList, PB', by simp, by simp, ?_, ?_, ?_, ?_⟩
+  · cases here <;> simp
+  · cases here' <;> simp
+  · intro p hp
+    rcases List.mem_append.mp hp with hp | hp
+    · cases here with
+      | none => simp at hp
+      | some p0 =>
+        simp only [Option.toList_some, List.mem_singleton] at hp; subst hp
+        rename_i hh _
+        have := planOne_index q env (0 + A'.length) s p hh
+        omega
+    · cases here' with
+      | none => simp at hp
+      | some p0 =>
+        simp only [Option.toList_some, List.mem_singleton] at hp; subst hp
+        rename_i hh
+        have := planOne_index q env (0 + A'.length) s' p hh
+        omega
+  · intro p hp
+    rcases List.mem_append.mp hp with hp | hp
+    · have := iA p hp; omega
+    · have := iB p hp; omega
+
+/-- **A top-level setting other than `data_sources` governs no planned call**: two settings objects with the same
+`data_sources` value whose runs both reach the loop plan exactly the same calls — whatever `rule_mode`, `merchants_file`,
+`views_file`, `year`, … say. -/
+theorem plan_toplevel_local (q : Bool) (env : Env) (c c' : Dict) (cfg cfg' : Config) (P P' : List Planned)
+    (hds : get kDataSources c = get kDataSources c')
+    (h : resolveConfig env (.map c) = .ok cfg) (h' : resolveConfig env (.map c') = .ok cfg')
+    (hP : planSources q env cfg = .ok P) (hP' : planSources q env cfg' = .ok P') : P = P' := by
+  obtain ⟨ss, _, _, _, _, hss, _, _, rfl⟩ := resolveConfig_ok env c cfg h
+  obtain ⟨ss', _, _, _, _, hss', _, _, rfl⟩ := resolveConfig_ok env c' cfg' h'
+  rw [hds, hss'] at hss
+  cases hss
+  have hp := planSources_ok q env _ P hP
+  have hp' := planSources_ok q env _ P' hP'
+  simp only at hp hp'
+  rw [hp] at hp'
+  cases hp'; rfl
+
+/-! #### `tally up` from the settings object -/
+
+private theorem toSources_ordinary (w : World) (plan : List Planned) (srcs : List Source) (h : toSources w plan = .ok srcs) :
+    ∀ s ∈ srcs, s.supplemental = false := by
+  induction plan generalizing srcs with
+  | nil => simp [toSources] at h; subst h; simp
+  | cons p ps ih =>
+    simp only [toSources] at h
+    cases hp : toSource w p with
+    | error e => simp [hp] at h
+    | ok s =>
+      simp only [hp] at h
+      cases hr : toSources w ps with
+      | error e => simp [hr] at h
+      | ok ss =>
+        simp only [hr, Except.ok.injEq] at h
+        subst h
+        intro x hx
+        rcases List.mem_cons.mp hx with rfl | hx
+        · unfold toSource at hp
+          cases hpp : parsePlanned w p with
+          | error e => simp [hpp, Except.map] at hp
+          | ok rows => simp [hpp, Except.map] at hp; rw [← hp]
+        · exact ih ss hr x hx
+
+private theorem filter_ordinary (srcs : List Source) (h : ∀ s ∈ srcs, s.supplemental = false) :
+    srcs.filter (fun s => !s.supplemental) = srcs := by
+  apply List.filter_eq_self.mpr
+  intro s hs
+  simp [h s hs]
+
+/-- **`tally up` = classify ∘ concat ∘ parse ∘ plan ∘ resolve — from the settings object.**  When the settings load
+(`resolveConfig`), the run reaches the loop (`planSources`) and the model covers the planned calls (`toSources`), the
+transaction list of the command is the row-by-row classification — by the classifier the resolved config selects
+(`classEnv`: rule mode, rules file, supplemental sources) — of the concatenation, in `data_sources` order, of what each
+planned call's parser returns for ITS file with ITS resolved settings. -/
+theorem settings_report_eq_composition (q : Bool) (env : Env) (w : World) (classify : ClassEnv → Row → Except Err Classified)
+    (settings : Y) (cfg : Config) (plan : List Planned) (srcs : List Source)
+    (h1 : resolveConfig env settings = .ok cfg) (h2 : planSources q env cfg = .ok plan) (h3 : toSources w plan = .ok srcs) :
+    upFromSettings q env w classify settings =
+      (classifyAll (classify (classEnv cfg)) (srcs.flatMap Source.rows)).mapError Stop.model := by
+  unfold upFromSettings
+  simp only [h1, h2, h3]
+  rw [upLoop_eq_composition, filter_ordinary srcs (toSources_ordinary w plan srcs h3)]
+  cases classifyAll (classify (classEnv cfg)) (srcs.flatMap Source.rows) <;> rfl
+
+/-- …and its report is C06's totals of those transactions: `runUp` (the composition `source_local`, `setting_local`,
+`silent_source_neutral`, `source_order_irrelevant`, `report_count` are about) over the planned sources, amounts read
+exactly.  Holds for every classifier that answers on the budget's rows. -/
+theorem settings_report_eq_runUp (q : Bool) (env : Env) (w : World) (classify : ClassEnv → Row → Except Err Classified)
+    (lower : String → String) (cents : UInt64 → Int) (cl : Row → Classified)
+    (settings : Y) (cfg : Config) (plan : List Planned) (srcs : List Source)
+    (h1 : resolveConfig env settings = .ok cfg) (h2 : planSources q env cfg = .ok plan) (h3 : toSources w plan = .ok srcs)
+    (hcl : Classifies (classify (classEnv cfg)) cl srcs) :
+    (upFromSettings q env w classify settings).toOption.map (reportG intNum lower cents) =
+      some (runUp lower (fun s : Source => s.supplemental) (txnsOf cents cl) srcs) := by
+  unfold upFromSettings
+  simp only [h1, h2, h3]
+  have := up_report_eq_runUp lower cents (classify (classEnv cfg)) cl srcs hcl
+  cases hu : upLoop (classify (classEnv cfg)) srcs with
+  | error e => rw [hu] at this; simp [Except.map] at this
+  | ok cls =>
+    rw [hu] at this
+    simp only [Except.map, Except.ok.injEq] at this
+    simp [Except.toOption, this]
+
+private theorem toSources_append (w : World) (a b : List Planned) (S : List Source) (h : toSources w (a ++ b) = .ok S) :
+    ∃ A B, toSources w a = .ok A ∧ toSources w b = .ok B ∧ S = A ++ B := by
+  induction a generalizing S with
+  | nil => exact ⟨[], S, rfl, h, rfl⟩
+  | cons p a ih =>
+    simp only [List.cons_append, toSources] at h ⊢
+    cases hp : toSource w p with
+    | error e => simp [hp] at h
+    | ok s =>
+      simp only [hp] at h ⊢
+      cases hr : toSources w (a ++ b) with
+      | error e => simp [hr] at h
+      | ok S' =>
+        simp only [hr, Except.ok.injEq] at h
+        obtain ⟨A, B, hA, hB, rfl⟩ := ih S' hr
+        exact ⟨s :: A, B, by simp [hA], hB, by simp [← h]⟩
+
+private theorem classifyAll_append_ok (classify : Row → Except Err Classified) (a b : List Row) (T : List Classified)
+    (h : classifyAll classify (a ++ b) = .ok T) :
+    ∃ Ta Tb, classifyAll classify a = .ok Ta ∧ classifyAll classify b = .ok Tb ∧ T = Ta ++ Tb := by
+  rw [classifyAll_append] at h
+  cases ha : classifyAll classify a with
+  | error e => rw [ha] at h; cases h
+  | ok Ta =>
+    cases hb : classifyAll classify b with
+    | error e => rw [ha, hb] at h; cases h
+    | ok Tb =>
+      rw [ha, hb] at h
+      exact ⟨Ta, Tb, rfl, rfl, by cases h; rfl⟩
+
+/-- **The classifier of a run does not depend on an ordinary source.**  Replace one entry of `data_sources` by another; if
+neither is a supplemental source and `rule_mode` / `merchants_file` are untouched, the rule mode, the rules file and the
+supplemental sources available to rule expressions — everything the classifier is built from — are the same. -/
+theorem class_env_source_local (env : Env) (c c' : Dict) (pre post : List Y) (x x' : Y) (cfg cfg' : Config)
+    (hc : get kDataSources c = some (.list (pre ++ x :: post))) (hc' : get kDataSources c' = some (.list (pre ++ x' :: post)))
+    (hmode : get kRuleMode c = get kRuleMode c') (hmf : get kMerchantsFile c = get kMerchantsFile c')
+    (h : resolveConfig env (.map c) = .ok cfg) (h' : resolveConfig env (.map c') = .ok cfg')
+    (hx : ∀ s, resolveSource env.ext x = .ok s → s.supplemental.truthy = false)
+    (hx' : ∀ s, resolveSource env.ext x' = .ok s → s.supplemental.truthy = false) :
+    classEnv cfg = classEnv cfg' := by
+  obtain ⟨A, R, hA, hR, hS⟩ := resolveAll_append env.ext pre (x :: post) cfg.sources (sources_of_list env c _ cfg hc h)
+  obtain ⟨s, B, hs, hB, rfl⟩ := resolveAll_cons env.ext x post R hR
+  obtain ⟨A', R', hA', hR', hS'⟩ := resolveAll_append env.ext pre (x' :: post) cfg'.sources (sources_of_list env c' _ cfg' hc' h')
+  obtain ⟨s', B', hs', hB', rfl⟩ := resolveAll_cons env.ext x' post R' hR'
+  have eA : A' = A := by rw [hA] at hA'; cases hA'; rfl
+  have eB : B' = B := by rw [hB] at hB'; cases hB'; rfl
+  subst eA eB
+  obtain ⟨ss, rf, wr, vf, wv, _, hrf, _, e⟩ := resolveConfig_ok env c cfg h
+  obtain ⟨ss', rf', wr', vf', wv', _, hrf', _, e'⟩ := resolveConfig_ok env c' cfg' h'
+  have hrfe : rf = rf' := by
+    rw [resolveRulesFile_congr env c c' hmf, hrf'] at hrf
+    cases hrf; rfl
+  have hme : (resolveRuleMode c).1 = (resolveRuleMode c').1 := by rw [resolveRuleMode_congr c c' hmode]
+  unfold classEnv
+  rw [hS, hS']
+  simp only [List.filter_append, List.filter_cons, hx s hs, hx' s' hs', Bool.false_eq_true, if_false]
+  rw [e, e']
+  simp only [hrfe, hme]
+
+/-- **Changing one source or one of its settings changes only that source's share — from the settings object.**
+Two settings objects whose `data_sources` differ in ONE entry that is an ordinary (non-supplemental) source on both sides, with
+the same `rule_mode` and `merchants_file`: when both runs complete, their transaction lists are
+`before ++ own ++ after` and `before ++ own' ++ after` with LITERALLY the same `before` and `after` (the classified
+transactions of all other sources, in order) — and every money-flow figure and count of either report is the figure of
+`before ++ after` plus the figure of the source's own transactions (C06's exact totals). -/
+theorem settings_source_local (q : Bool) (env : Env) (w : World) (classify : ClassEnv → Row → Except Err Classified)
+    (lower : String → String) (cents : UInt64 → Int)
+    (c c' : Dict) (pre post : List Y) (x x' : Y) (T T' : List Classified)
+    (hc : get kDataSources c = some (.list (pre ++ x :: post))) (hc' : get kDataSources c' = some (.list (pre ++ x' :: post)))
+    (hmode : get kRuleMode c = get kRuleMode c') (hmf : get kMerchantsFile c = get kMerchantsFile c')
+    (hx : ∀ s, resolveSource env.ext x = .ok s → s.supplemental.truthy = false)
+    (hx' : ∀ s, resolveSource env.ext x' = .ok s → s.supplemental.truthy = false)
+    (hT : upFromSettings q env w classify (.map c) = .ok T) (hT' : upFromSettings q env w classify (.map c') = .ok T') :
+    ∃ before own own' after,
+      T = before ++ own ++ after ∧ T' = before ++ own' ++ after ∧
+      (∀ U, U = own ∨ U = own' →
+        flowOf (reportG intNum lower cents (before ++ U ++ after)) =
+          ⟨(reportG intNum lower cents (before ++ after)).income + (reportG intNum lower cents U).income,
+           (reportG intNum lower cents (before ++ after)).spending + (reportG intNum lower cents U).spending,
+           (reportG intNum lower cents (before ++ after)).credits + (reportG intNum lower cents U).credits,
+           (reportG intNum lower cents (before ++ after)).transfersIn + (reportG intNum lower cents U).transfersIn,
+           (reportG intNum lower cents (before ++ after)).transfersOut + (reportG intNum lower cents U).transfersOut,
+           (reportG intNum lower cents (before ++ after)).investment + (reportG intNum lower cents U).investment,
+           (reportG intNum lower cents (before ++ after)).count + (reportG intNum lower cents U).count,
+           (reportG intNum lower cents (before ++ after)).total + (reportG intNum lower cents U).total⟩) := by
+  -- unfold both runs
+  unfold upFromSettings at hT hT'
+  cases h : resolveConfig env (.map c) with
+  | error e => simp [h] at hT
+  | ok cfg =>
+  cases h' : resolveConfig env (.map c') with
+  | error e => simp [h'] at hT'
+  | ok cfg' =>
+  simp only [h, h'] at hT hT'
+  cases hP : planSources q env cfg with
+  | error e => simp [hP] at hT
+  | ok P =>
+  cases hP' : planSources q env cfg' with
+  | error e => simp [hP'] at hT'
+  | ok P' =>
+  simp only [hP, hP'] at hT hT'
+  cases hS : toSources w P with
+  | error e => simp [hS] at hT
+  | ok S =>
+  cases hS' : toSources w P' with
+  | error e => simp [hS'] at hT'
+  | ok S' =>
+  simp only [hS, hS'] at hT hT'
+  have hce := class_env_source_local env c c' pre post x x' cfg cfg' hc hc' hmode hmf h h' hx hx'
+  rw [← hce] at hT'
+  cases hU : upLoop (classify (classEnv cfg)) S with
+  | error e => simp [hU] at hT
+  | ok U0 =>
+  cases hU' : upLoop (classify (classEnv cfg)) S' with
+  | error e => simp [hU'] at hT'
+  | ok U0' =>
+  simp only [hU, hU', Except.ok.injEq] at hT hT'
+  subst hT hT'
+  obtain ⟨PB, here, here', PA, rfl, rfl, _, _, _, _⟩ := plan_source_local q env c c' pre post x x' cfg cfg' P P' hc hc' h h' hP hP'
+  -- the sources of the two plans share prefix and suffix
+  obtain ⟨SBH, SA, hSBH, hSA, rfl⟩ := toSources_append w (PB ++ here) PA S hS
+  obtain ⟨SB, SH, hSB, hSH, rfl⟩ := toSources_append w PB here SBH hSBH
+  obtain ⟨SBH', SA', hSBH', hSA', rfl⟩ := toSources_append w (PB ++ here') PA S' hS'
+  obtain ⟨SB', SH', hSB', hSH', rfl⟩ := toSources_append w PB here' SBH' hSBH'
+  have e1 : SB' = SB := by rw [hSB] at hSB'; cases hSB'; rfl
+  have e2 : SA' = SA := by rw [hSA] at hSA'; cases hSA'; rfl
+  subst e1 e2
+  have ord : ∀ L P, toSources w P = .ok L → L.filter (fun s => !s.supplemental) = L :=
+    fun L P hL => filter_ordinary L (toSources_ordinary w P L hL)
+  rw [upLoop_eq_composition, ord _ _ hS] at hU
+  rw [upLoop_eq_composition, ord _ _ hS'] at hU'
+  simp only [List.flatMap_append] at hU hU'
+  obtain ⟨TBH, TA, hTBH, hTA, rfl⟩ := classifyAll_append_ok _ _ _ _ hU
+  obtain ⟨TB, TH, hTB, hTH, rfl⟩ := classifyAll_append_ok _ _ _ _ hTBH
+  obtain ⟨TBH', TA', hTBH', hTA', rfl⟩ := classifyAll_append_ok _ _ _ _ hU'
+  obtain ⟨TB', TH', hTB', hTH', rfl⟩ := classifyAll_append_ok _ _ _ _ hTBH'
+  have e3 : TB' = TB := by rw [hTB] at hTB'; cases hTB'; rfl
+  have e4 : TA' = TA := by rw [hTA] at hTA'; cases hTA'; rfl
+  subst e3 e4
+  refine ⟨TB', TH, TH', TA', rfl, rfl, ?_⟩
+  intro U _
+  -- C06: the figures of `before ++ U ++ after` are those of `before ++ after` plus those of `U`
+  have := source_local lower (fun _ : List T => false) (fun l => l) [TB'.map (toTotalsG cents)] [TA'.map (toTotalsG cents)]
+    (U.map (toTotalsG cents)) rfl
+  simpa [runUp, reportG, List.map_append] using this
+
+/-! #### what the code does with values of another type, on concrete settings (kernel-checked; each is replayed on the
+real code by the `load` / `plan` / `read` streams of the check) -/
+
+/-- ASCII-only text: the `Ext` parameters are never consulted -/
+def ext0 : Fmt.Ext := ⟨fun _ => false, fun _ => false, id⟩
+
+def ys (s : String) : Y := .str s.toList
+def ym (kvs : List (String × Y)) : Y := .map (kvs.map fun kv => (kv.1.toList, kv.2))
+
+/-- a budget at `/b`: two statement files, a rules file and the legacy CSV are there -/
+def demoEnv : Env :=
+  { ext := ext0, cfgDir := "/b/config".toList,
+    pathExists := fun p => p ∈ ["/b/data/a.csv".toList, "/b/data/x.csv".toList, "/b/data/o.csv".toList, "/b/config/merchants.rules".toList,
+                               "/b/config/merchant_categories.csv".toList],
+    viewsLoad := fun _ => .loaded }
+
+def srcBank : Y := ym [("name", ys "Bank"), ("file", ys "data/a.csv"), ("format", ys "{date:%Y-%m-%d},{description},{-amount}"),
+  ("has_header", ys "false"), ("negate_amount", .bool false), ("delimiter", .int 0), ("decimal_separator", ys ",")]
+def srcOrders : Y := ym [("name", ys "orders"), ("file", ys "data/o.csv"), ("format", ys "{date},{item},{amount}"),
+  ("columns", ym [("description", ys "{item}")]), ("supplemental", ys "no")]
+def srcCard : Y := ym [("name", ys "Card"), ("file", ys "data/missing.csv"), ("format", ys "{date},{description},{amount}")]
+def srcAmex : Y := ym [("file", ys "./data//x.csv"), ("type", ys "AMEX"), ("format_", ys "ignored"), ("delimiter", .list [ys ";"])]
+
+def demoSettings : Y := ym [("year", .int 2025), ("data_sources", .list [srcBank, srcOrders, srcCard, srcAmex]), ("rule_mode", ys "Most_Specific"),
+  ("merchants_file", ys "config/missing.rules"), ("home_state", ys "WA")]
+
+/-- the demo settings load: four sources; `rule_mode: Most_Specific` is NOT one of the two spellings (first_match + a warning); the
+configured rules file is missing and the legacy CSV next to it is NOT used; warnings in the order the code appends them -/
+example : (resolveConfig demoEnv demoSettings).toOption.map
+      (fun k => (k.sources.length, k.ruleMode, k.rulesFile, k.warnings.map Warning.type)) =
+    some (4, .firstMatch, .none, ["deprecated".toList, "deprecated".toList, "warning".toList, "warning".toList]) := by decide +kernel
+
+/-- what `tally up -q` parses for them: `bank` from `/b/data/a.csv`; `orders` is supplemental (`supplemental: "no"` is a
+non-empty string: TRUE); `card`'s file is missing; the `type: AMEX` source (no name: fine with --quiet) from the normalised path -/
+example : ((resolveConfig demoEnv demoSettings).toOption.map fun k => (planSources true demoEnv k).toOption.map
+      (fun P => P.map fun p => (p.index, String.ofList p.path, match p.call with | .amex => "amex" | .boa => "boa" | .generic .. => "generic"))) =
+    some (some [(0, "/b/data/a.csv", "generic"), (3, "/b/data/x.csv", "amex")]) := by decide +kernel
+
+/-- **Finding F11-name (the code violates the last clause of C11 on this input class; witness on `Impl`).**  The settings load, and
+with `--quiet` the run parses two sources; WITHOUT `--quiet` the same run dies on the progress line of the source that has no
+`name:` key (`KeyError: 'name'`) — the other source's figures are lost.  Replayed on the real code by the `plan` stream
+(notes/config_notes.md; proposed repair notes/fix_F11_name.diff). -/
+theorem nameless_source_kills_the_run_without_quiet :
+    ((resolveConfig demoEnv demoSettings).toOption.map fun k => ((planSources true demoEnv k).toOption.map List.length, planSources false demoEnv k)) =
+      some (some 2, .error (.keyError kName)) := by decide +kernel
+
+/-- how the reader takes `bank`'s settings: `has_header: "false"` is a non-empty string — the first line IS skipped;
+`negate_amount: false` switches `{-amount}` OFF; `delimiter: 0` is falsy — comma; `decimal_separator: ","` — European amounts -/
+theorem dynamic_typing_of_reader_settings :
+    ((resolveSource ext0 srcBank).toOption.bind fun s => match s.parser with
+      | .generic g => (readArgs g (s.name.getD .null) s.decimalSeparator).toOption.map
+          fun r => (r.delim, r.hasHeader, r.eu, r.spec.negateAmount, g.base.negateAmount)
+      | _ => none) = some (.csv ',', true, true, false, true) := by decide +kernel
+
+/-- `negate_amount` absent ≠ `negate_amount: false` when the format says `{-amount}`: the documented default `false` is the
+default only for a format without the minus sign (`default_negate_amount` is the exact statement) -/
+theorem negate_amount_false_overrides_minus_sign :
+    formatFlag ext0 [("format".toList, ys "{date},{description},{-amount}")] = some true ∧
+    resolveSource ext0 (ym [("format", ys "{date},{description},{-amount}")]) ≠
+      resolveSource ext0 (ym [("format", ys "{date},{description},{-amount}"), ("negate_amount", .bool false)]) := by
+  decide +kernel
+
+/-- a delimiter that is a truthy non-string (`delimiter: 5`, `delimiter: [";"]`) is stored as it is by the loader and breaks the
+READER (`AttributeError`, caught per source: that source yields nothing); a falsy one (`0`, `false`, `''`, `null`) is a comma -/
+theorem delimiter_of_another_type :
+    delimArg (.int 5) = .error .attributeError ∧ delimArg (.list [ys ";"]) = .error .attributeError ∧
+    delimArg (.bool true) = .error .attributeError ∧
+    delimArg (.int 0) = .ok (.csv ',') ∧ delimArg (.bool false) = .ok (.csv ',') ∧ delimArg (ys "") = .ok (.csv ',') ∧
+    delimArg .null = .ok (.csv ',') ∧ delimArg (ys "tab") = .ok (.csv '\t') ∧ delimArg (ys ";;") = .ok (.csv ',') ∧
+    delimArg (ys "regex:^(.*)$") = .ok .regex := by decide +kernel
+
+/-- which entries abort the load and which are tolerated (`SourceOk`): a `format` that is null / a number, a `type` that is not
+a string, a removed key, neither `format` nor `type`, a Mode-2 format whose `columns.description` is a number — rejected;
+wrongly typed reader settings, unknown keys, a missing `name` / `file`, a `type` next to a valid `format` — accepted -/
+example : SourceOk ext0 srcBank = true ∧ SourceOk ext0 srcAmex = true ∧
+    SourceOk ext0 (ym [("format", ys "{date},{description},{amount}"), ("type", .int 5), ("delimiter", ym []), ("has_header", .list [])]) = true ∧
+    SourceOk ext0 (ym [("format", .null), ("type", ys "amex")]) = false ∧
+    SourceOk ext0 (ym [("type", .int 5)]) = false ∧ SourceOk ext0 (ym [("type", ys "visa")]) = false ∧
+    SourceOk ext0 (ym [("format", ys "{date},{description},{amount}"), ("skip_negative", .bool false)]) = false ∧
+    SourceOk ext0 (ym [("name", ys "x"), ("file", ys "data/a.csv")]) = false ∧
+    SourceOk ext0 (ym [("format", ys "{date},{merchant},{amount}"), ("columns", ym [("description", .int 5)])]) = false ∧
+    SourceOk ext0 (ym [("format", ys "{date},{description},{amount}"), ("columns", ym [("description", .int 0)])]) = true ∧
+    SourceOk ext0 (ys "data/a.csv") = false ∧ SourceOk ext0 (.list [srcBank]) = false := by decide +kernel
+
+/-- `LoadOk`: the demo settings; `data_sources` a mapping / a number; `merchants_file: 5`; an empty settings file -/
+example : LoadOk demoEnv demoSettings = true ∧
+    LoadOk demoEnv (ym [("data_sources", ym [("a", srcBank)])]) = false ∧ LoadOk demoEnv (ym [("data_sources", .int 5)]) = false ∧
+    LoadOk demoEnv (ym [("data_sources", .int 0), ("merchants_file", ys "")]) = true ∧
+    LoadOk demoEnv (ym [("merchants_file", .int 5)]) = false ∧ LoadOk demoEnv .null = false ∧ LoadOk demoEnv (ym []) = true := by
+  decide +kernel
+
+/-- the three-way choice of the rules file on that budget: configured & there → `new`; configured & missing → none (NOT the
+legacy CSV that exists); absent or falsy (`merchants_file: ""`) → the legacy CSV -/
+example :
+    (resolveConfig demoEnv (ym [("merchants_file", ys "config/merchants.rules")])).toOption.map (·.rulesFile) =
+      some (.new "/b/config/merchants.rules".toList) ∧
+    (resolveConfig demoEnv (ym [("merchants_file", ys "config/missing.rules")])).toOption.map (·.rulesFile) = some .none ∧
+    (resolveConfig demoEnv (ym [])).toOption.map (·.rulesFile) = some (.csv "/b/config/merchant_categories.csv".toList) ∧
+    (resolveConfig demoEnv (ym [("merchants_file", ys "")])).toOption.map (·.rulesFile) =
+      some (.csv "/b/config/merchant_categories.csv".toList) ∧
+    (resolveConfig demoEnv (ym [("merchants_file", .bool true)])).toOption = none := by decide +kernel
+
+/-- hypotheses of `plan_source_local` / `class_env_source_local` on the demo budget: replace `card` (position 2) by a source
+whose file exists — both runs reach the loop, neither entry is supplemental -/
+def srcCard' : Y := ym [("name", ys "Card"), ("file", ys "data/x.csv"), ("format", ys "{date},{description},{amount}"), ("delimiter", ys ";")]
+def demoSettings' : Y := ym [("data_sources", .list [srcBank, srcOrders, srcCard', srcAmex]), ("rule_mode", ys "Most_Specific"),
+  ("merchants_file", ys "config/missing.rules"), ("views_file", ys "config/views.rules")]
+example :
+    ((resolveConfig demoEnv demoSettings).toOption.bind fun k => (planSources true demoEnv k).toOption.map fun P => P.map (·.index)) = some [0, 3] ∧
+    ((resolveConfig demoEnv demoSettings').toOption.bind fun k => (planSources true demoEnv k).toOption.map fun P => P.map (·.index)) = some [0, 2, 3] ∧
+    (resolveSource ext0 srcCard).toOption.map (·.supplemental.truthy) = some false ∧
+    (resolveSource ext0 srcCard').toOption.map (·.supplemental.truthy) = some false := by decide +kernel
+
+/-- the files of the demo budget and the `float()` / `strptime` answers their cells need -/
+def demoWorld : World :=
+  { text := fun p =>
+      if p = "/b/data/a.csv".toList then some "D,T,A\n2025-01-05,UBER EATS,\"12,50\"\n2025-01-06,SHELL,40\n".toList
+      else if p = "/b/data/x.csv".toList then some "Date;Description;Amount\n2025-02-01;NETFLIX;9.99\n".toList
+      else none
+    regex := fun _ => none
+    csv := { pyFloat := fun s =>
+               if s = "12.50".toList then some (Csv.F64.ofBits 0x4029000000000000)
+               else if s = "40".toList then some (Csv.F64.ofBits 0x4044000000000000)
+               else if s = "9.99".toList then some (Csv.F64.ofBits 0x4023FAE147AE147B) else none
+             strptime := fun _ tok => some (tok ++ "T00:00:00".toList) }
+    special := fun _ => some [] }
+
+/-- a classifier that answers on every row -/
+def demoClassify : ClassEnv → Row → Except Err Classified :=
+  fun _ r => .ok ⟨r.description, "Cat", "", [], r.amount, monthOf r.date⟩
+
+/-- **the whole chain on the demo budget, from the settings object**: `bank` is read with ITS settings (the first line skipped
+because `has_header: "false"` is truthy, `12,50` a European amount, `{-amount}` switched off by `negate_amount: false`); the
+supplemental, the missing and the (empty) `type: AMEX` source add nothing; with `card'` in place of `card` exactly ONE
+transaction is added after the two of `bank`: hypotheses and conclusion of `settings_source_local` /
+`settings_report_eq_composition` on a non-trivial input -/
+example :
+    (upFromSettings true demoEnv demoWorld demoClassify demoSettings).toOption.map (fun T => T.map fun t => (t.merchant, t.amount, t.month)) =
+      some [("UBER EATS", 0x4029000000000000, "2025-01"), ("SHELL", 0x4044000000000000, "2025-01")] ∧
+    (upFromSettings true demoEnv demoWorld demoClassify demoSettings').toOption.map (fun T => T.map fun t => (t.merchant, t.amount, t.month)) =
+      some [("UBER EATS", 0x4029000000000000, "2025-01"), ("SHELL", 0x4044000000000000, "2025-01"),
+            ("NETFLIX", 0x4023FAE147AE147B, "2025-02")] := by
+  constructor <;> decide +kernel
+
+end settings
 
 end TallyVerif.Props.C11
